@@ -23,7 +23,15 @@ use prost::{DecodeError, Message};
 use crate::proto::command::ListenersCount;
 
 pub const MAX_FDS_OUT: usize = 200;
-pub const MAX_BYTES_OUT: usize = 4096;
+/// Size of the receive buffer for the listener manifest (the length-delimited
+/// `ListenersCount`). It must hold the manifest of `MAX_FDS_OUT` listeners:
+/// each address is framed as tag + length + text, and the longest `SocketAddr`
+/// text is an IPv6 address with a scope id and a port
+/// (`[xxxx:xxxx:xxxx:xxxx:xxxx:xxxx:xxxx:xxxx%4294967295]:65535`, 58 bytes).
+/// The former 4096 bytes overflowed from 179 listeners with 21-byte IPv4
+/// addresses (84 with full IPv6 addresses): the receiver then failed to decode
+/// the manifest and the new worker started without its listeners.
+pub const MAX_BYTES_OUT: usize = MAX_FDS_OUT * 64 + 16;
 
 #[derive(thiserror::Error, Debug)]
 pub enum ScmSocketError {
